@@ -197,17 +197,17 @@ def diff_obj(before, o):
 
 
 def shares(res, others):
-    """[(res_field, other_name, other_field)] for every pair of array buffers that share memory"""
+    """[(res_field, other_name, other_field, res_slot)] for every pair of array buffers that share memory"""
     import numpy as np
     out = set()
-    rs = [(f, b) for f, k, b in slots(res) if isinstance(b, np.ndarray)]
+    rs = [(f, k, b) for f, k, b in slots(res) if isinstance(b, np.ndarray)]
     for name, o in others.items():
         for f2, k2, b2 in slots(o):
             if not isinstance(b2, np.ndarray):
                 continue
-            for f, b in rs:
+            for f, k, b in rs:
                 if b is b2 or np.shares_memory(b, b2):
-                    out.add((f, name, f2))
+                    out.add((f, name, f2, k))
     return sorted(out)
 
 
